@@ -55,7 +55,7 @@ META = [("R15", data.r15_fields), ("R15c", data.r15c_copy_with), ("R16", data.r1
 REGRID = [("R35", data.r35_regrid), ("R35b", misc.r35b_specside), ("R33c", data.r33c_compress)]
 UNITS = [("R36", data.r36_units)]
 VALID = [("R38", valid.r38_valid)]
-STATIC = [("R39", buffer.r39_static), ("R40", link.r40_cbtime), ("R14f", misc.r14_fresh)]
+STATIC = [("R39", buffer.r39_static), ("R40", link.r40_cbtime), ("R40c", link.r40c_shared_conduit), ("R14f", misc.r14_fresh)]
 
 
 def _u(*groups):
@@ -69,7 +69,7 @@ def _u(*groups):
 
 
 RULES = {
-    "C01": _u(SCHED, LINKDATA, TIMEAD),
+    "C01": _u(SCHED, LINKDATA, TIMEAD, ("R40c", link.r40c_shared_conduit)),
     "C02": _u(SCHED, ("R30", link.r30_delay)),
     "C03": _u(LIFE, SCHED, CONNECT),
     "C04": _u(SCHED, CONNECT, ("R30", link.r30_delay)),
@@ -116,7 +116,7 @@ TEXTS = {'C01': 'Static, clause level: (R01) every in-repo time component pulls 
     'C14': "Static: (R31) every writer of a field a memoised grid property is computed from resets the memo; (R32) points, cells, cell_centers, data_shape, data_axes, data_points agree on order / axis direction / data location, setters validate locations, casts forward all layout fields; (R32b) index-space typing of order_map and of gen_cells' re-ordering. NOT decided: the index arithmetic inside gen_cells' corner formulas, coordinates as numbers.", 'C15': "Static: (R33) layout algebra: to_canonical / from_canonical, abstractly interpreted for all 28 layouts (1-3 D, both axis orders, every direction combination), yield x,y,z-indexed increasing data, the grid's own layout, and the identity when composed; (R34) get_transform_to maps source layout onto target layout for all layout pairs, returns None only for equal layouts (the class's own __eq__), refuses incompatible grids; Input takes the transform source->merged grid; (R19) the transform never sees the time axis. NOT decided: 'compatible exactly when same locations' (np.allclose on coordinates).", 'C16': "Static: (R35) coordinates and flattened data of both regridders use the same grid's order and mask on each side, tree built from source and queried with target coordinates; (R35b) pulled data is paired with the delivered grid's layout; (R41) masks are never truth-tested; (R33c) to_compressed / from_compressed mirror each other. NOT decided: nearest-neighbour and affine exactness (scipy), convex-hull masking.", 'C17': 'Static: (R36) decision table of compatible_units / equivalent_units / _cache_units against a scripted pint: compatible iff the conversion does not raise DimensionalityError, equivalent iff converting 1 gives 1, memo keyed by the ordered pair, answers independent of query history; to_units relabels iff equivalent, converts otherwise, refuses incompatible; prepare/check raise FinamDataError. NOT decided: physical exactness of factors and offsets (pint is trusted).',
     'C18': 'Static: (R37) masks_compatible over 98 combinations of {None, FLEX, NONE, nomask, masks} x direction equals the documented table; masks travel with their own grid; prepare applies exactly info.mask; (R33c) compress/expand use the same order for data and mask and the negated mask as selector. NOT decided: element-wise round-trip equality as numbers.',
     'C19': 'Static: (R38) _validate_composition abstractly interpreted over 70+ topologies (all chains of source/adapter/sink kinds up to length 2, static combinations, unconnected inputs, fan-outs at/below/above no-branch adapters, missing components with equal and distinct slot names): FinamConnectError exactly for the unworkable ones; metadata reports exactly the created links; (R06) validation dominates the first exchange. NOT decided: arbitrary fan-out trees beyond the enumerated shapes.',
-    'C20': 'Static: (R39) static output serves its single publication for any time, refuses a second one, stores time None; static input fetches once; (R40) a pull-based output invokes its provider once with the requested time, WeightedSum pulls all inputs for that time and multiplies each value with its own weight; (R14) providers return fresh objects; (R03/R09) scheduling through pull-based components. NOT decided: the numeric sum and unit harmonisation.'}
+    'C20': 'Static: (R39) static output serves its single publication for any time, refuses a second one, stores time None; static input fetches once; (R40) a pull-based output invokes its provider once with the requested time, WeightedSum pulls all inputs for that time and multiplies each value with its own weight; (R14) providers return fresh objects; (R03/R09) scheduling through pull-based components; (R40c) several consumers behind one pull-based component - on the current tree this is the OPEN KNOWN FINDING F16 (the upstream output sees them as one end point and discards what the slower-requesting one still needs; printed as KNOWN-FINDING, exit 0). NOT decided: the numeric sum.'}
 
 for _pid in sorted(RULES):
     TEXTS[_pid] += (" Rules evaluated under this property (each a necessary condition of a mechanism the property relies on; "
